@@ -51,7 +51,8 @@ impl<T: Send + Sync + 'static> Subscriber<T, AsyncLock> {
     where
         T: Clone,
     {
-        self.next_ref().await.map(|read_guard| read_guard.clone())
+        // One lock acquisition for checking and cloning, like `Stream::poll_next`.
+        poll_fn(|cx| self.poll_next_nopin(cx)).await
     }
 
     /// Get a clone of the inner value without waiting for an update.
@@ -96,7 +97,12 @@ impl<T: Send + Sync + 'static> Subscriber<T, AsyncLock> {
     #[must_use]
     pub async fn next_ref(&mut self) -> Option<ObservableReadGuard<'_, T, AsyncLock>> {
         // Unclear how to implement this as a named future.
-        poll_fn(|cx| self.poll_update(cx)).await?;
+        //
+        // The update is only marked as observed by `next_ref_now`, together
+        // with handing out the value: if this future is dropped while it waits
+        // for the lock a second time, the update must not be lost.
+        let mut observed_version = self.observed_version;
+        poll_fn(|cx| self.poll_update(&mut observed_version, cx)).await?;
         Some(self.next_ref_now().await)
     }
 
@@ -129,10 +135,14 @@ impl<T: Send + Sync + 'static> Subscriber<T, AsyncLock> {
         ObservableReadGuard::new(self.state.inner.lock().await)
     }
 
-    fn poll_update(&mut self, cx: &mut Context<'_>) -> Poll<Option<()>> {
+    fn poll_update(
+        &mut self,
+        observed_version: &mut u64,
+        cx: &mut Context<'_>,
+    ) -> Poll<Option<()>> {
         let state = ready!(self.state.get_lock.poll(cx));
         self.state.get_lock.set(self.state.inner.clone().lock_owned());
-        state.poll_update(&mut self.observed_version, cx)
+        state.poll_update(observed_version, cx)
     }
 
     fn poll_next_nopin(&mut self, cx: &mut Context<'_>) -> Poll<Option<T>>
